@@ -591,6 +591,11 @@ func spNode(n *Node, c int, f flags, s sst) (resKind, sst) {
 			s.ev = evAppend(s.ev, event{c, n.K})
 		}
 		return rNorm, s
+	case nEdit: // a read; what the VM does with the value afterwards cannot change the store
+		if f.r && alive(s.st.get, c) {
+			return rNorm, s
+		}
+		return rFault, s
 	case nIf:
 		if f.r && alive(s.st.get, c) {
 			if _, ok := s.st.get(mkey{c, n.K}); ok {
@@ -841,6 +846,14 @@ func imNode(n *Node, x ictx, s ist) (resKind, ist) {
 			cov["dyn:bulk-notify-completed"]++
 		}
 		return rNorm, s
+	case nEdit:
+		if x.f.r && alive(s.view, x.c) {
+			if _, ok := s.view(mkey{x.c, n.K}); ok {
+				cov["dyn:stored-value-derived-and-edited"]++
+			}
+			return rNorm, s
+		}
+		return rFault, s
 	case nIf:
 		if x.f.r && alive(s.view, x.c) {
 			if _, ok := s.view(mkey{x.c, n.K}); ok {
